@@ -7,6 +7,7 @@ package discovery
 
 //@ func (d *AuthenticatedGossiper) handleChanAnnouncement
 //@   props C20
+//@   bounds-safe
 //@   loop * havoc
 //@   site call ValidateChannelAnn: assert arg(a) == ann
 //@   site call validateFundingTransaction: assert arg(ann) == ann
@@ -16,6 +17,7 @@ package discovery
 //@
 //@ func (d *AuthenticatedGossiper) validateFundingTransaction
 //@   props C20
+//@   bounds-safe
 //@   ensures result3 == nil ==> retn(FetchFundingTxWrapper, 1) == nil && retn(makeFundingScript, 1) == nil &&
 //@           retn(Validate, 1) == nil && retn(GetUtxo, 1) == nil
 //@   ensures result3 == nil ==> result2 == retn(makeFundingScript, 0)
@@ -29,6 +31,7 @@ package discovery
 //@
 //@ func (d *AuthenticatedGossiper) handleChanUpdate
 //@   props C20
+//@   bounds-safe
 //@   loop * havoc
 //@   site call IsStaleEdgePolicy: assert arg(3) == upd.ChannelFlags && arg(2) == ret(Unix)
 //@   site call time.Unix: assert arg(0) == upd.Timestamp
@@ -44,6 +47,7 @@ package discovery
 //@
 //@ func (d *AuthenticatedGossiper) handleNodeAnnouncement
 //@   props C20
+//@   bounds-safe
 //@   loop * havoc
 //@   site call IsStaleNode: assert arg(2) == nodeAnn.NodeID && arg(3) == ret(Unix)
 //@   site call time.Unix: assert arg(0) == nodeAnn.Timestamp
@@ -52,6 +56,7 @@ package discovery
 //@
 //@ func (d *AuthenticatedGossiper) addNode
 //@   props C20
+//@   bounds-safe
 //@   site call AddNode: assert ret(ValidateNodeAnn) == nil
 //@   site call ValidateNodeAnn: assert arg(0) == msg
 //@   site call NodeFromWireAnnouncement: assert arg(0) == msg
@@ -59,6 +64,7 @@ package discovery
 //@ // ---- a zombie channel is resurrected only by an update signed by the node whose direction the update is for
 //@ func (d *AuthenticatedGossiper) processZombieUpdate
 //@   props C20
+//@   bounds-safe
 //@   site call NodeKey1: assert msg.ChannelFlags % 2 == 0 && arg(0) == chanInfo
 //@   site call NodeKey2: assert msg.ChannelFlags % 2 == 1 && arg(0) == chanInfo
 //@   site call VerifyChannelUpdateSignature: assert arg(0) == msg && arg(1) != nil &&
